@@ -29,7 +29,7 @@ func init() {
 		}
 		json.Unmarshal(b, &f)
 		rp := f.Replay
-		for _, seed := range crashSeeds(false) {
+		for _, seed := range append(crashSeeds(false), crashSeeds(true)...) {
 			if seed.Name != rp.First.Seed {
 				continue
 			}
